@@ -54,6 +54,7 @@ struct ShimCfg {
 	uint32_t rate_falloc, rate_unlink, rate_emfile, rate_mmap, rate_epoll_shuffle;
 	int realloc_always_moves;
 	uint32_t rate_kill, rate_write_lost;
+	int64_t coarse_tick_ns;     // > 0: the *_COARSE clock ids return the time of the last kernel tick (they lag the precise clocks by up to one tick, as on Linux); 0: they are precise
 	uint32_t rate_alloc;        // allocation failure (malloc / calloc / realloc made by libqb code)
 	int kill_spid;              // sim process that may be killed at any of its libc calls (0: nobody)
 	int64_t kill_countdown;     // > 0: that process dies at its n-th libc call from now (armed by a harness at a chosen instant)
